@@ -80,7 +80,7 @@ def make (c):
                 ang = [float (np.round (rng.uniform (-180, 180), 2)) if rng.random () < 0.75 else 0.0 for k in range (3)]
             tr.append (['rotate', key, ang])
         else:
-            v = rng.uniform (-1, 1, 3) * lam * float (rng.choice ([0.3, 3, 50, 200]))
+            v = rng.uniform (-1, 1, 3) * lam * float (rng.choice ([0.3, 3, 50, 200, 3e4]))
             if gnd:
                 v [2] = 0.0
             tr.append (['translate', key, [float (x) for x in v]])
@@ -189,21 +189,32 @@ def make_indep (c):
             else:
                 lst.append (['translate', key, [float (x) for x in rng.uniform (-1, 1, 3) * lam]])
         per [g ['tag']] = lst
-    spec ['indep'] = dict (per = {str (k): v for k, v in per.items ()}, order = int (rng.integers (0, 1000)))
+    glob = []
+    if rng.random () < 0.6:
+        # requests for the whole structure among the per-object ones (on the command line after one of them)
+        for key in [float (k) for k in rng.choice ([0, 3, 5, 11], size = int (rng.integers (1, 3)), replace = False)]:
+            if rng.random () < 0.5:
+                glob.append (['rotate', key, [float (np.round (rng.uniform (-180, 180), 2)) for k in range (3)]])
+            else:
+                glob.append (['translate', key, [float (x) for x in rng.uniform (-1, 1, 3) * lam]])
+    spec ['indep'] = dict (per = {str (k): v for k, v in per.items ()}, order = int (rng.integers (0, 1000)), glob = glob)
     return spec
 # end def make_indep
 
 def check_indep (spec):
     per  = {int (k): v for k, v in spec ['indep']['per'].items ()}
     base = {k: v for k, v in spec.items () if k != 'indep'}
+    glob = spec ['indep'].get ('glob') or []
     def T (tag, x):
         x = np.asarray (x, float)
-        for kind, key, v in sorted (per [tag], key = lambda t: t [1]):
+        for kind, key, v in sorted (per [tag] + glob, key = lambda t: t [1]):
             x = georef.rot_xyz (v) @ x if kind == 'rotate' else x + np.asarray (v, float)
         return x
     opts = [[kind, key, v, tag] for tag, lst in per.items () for kind, key, v in lst]
     rng  = np.random.default_rng (spec ['indep']['order'])
     opts = [opts [i] for i in rng.permutation (len (opts))]
+    for kind, key, v in glob:
+        opts.insert (int (rng.integers (1, len (opts) + 1)), [kind, key, v, None])
     b1 = copy.deepcopy (base)
     b1 ['tr'] = opts
     b2 = copy.deepcopy (base)
@@ -250,7 +261,11 @@ def check (c):
     if not ok:
         return dict (status = 'discard', reason = 'validity: ' + why [0])
     b1, b2, T, Tv = variants (spec)
-    mB = gen.build (b1)
+    try:
+        mB = gen.build (b1)
+    except common.Rejected as e:
+        return dict ( status = 'violation', sig = 'moved-rejected', nontrivial = True
+                    , violations = [dict (monitor = 'geometry.options', key = 'moved-model-rejected', msg = 'the antenna is accepted, the same antenna moved by %s is rejected: %s' % ([t [0] for t in spec ['motion']['tr']], str (e) [:120]))])
     observe.solve (mA)
     observe.solve (mB)
     cond = max (observe.cond_number (mA), observe.cond_number (mB))
